@@ -104,18 +104,25 @@ Proof. unfold deg2rad, rad2deg. field. apply PI_neq0. Qed.
 Lemma rad2deg_deg2rad x : rad2deg (deg2rad x) = x.
 Proof. unfold deg2rad, rad2deg. field. apply PI_neq0. Qed.
 
-(* Bring the arguments of sqrt / sin / cos / atan / Rinv to ring normal form on both sides of the goal, so that
-   two spellings of the same polynomial argument (a * b vs b * a, a - b vs a + - b, x * x vs x ^ 2) become the same
-   atom for a closing `ring` / `field`.  Proofs that end with `eq_mod_ring` do not depend on the order in which the
+(* Make equal-modulo-ring arguments of sqrt / sin / cos / atan / inverses syntactically equal: whenever the goal
+   contains f a and f b with a = b provable by [ring], b is replaced by a.  (ring_simplify is not used for this: its
+   normal form depends on the order in which the variables occur in the term, so it is not canonical across terms.)
+   Two spellings of the same polynomial argument (a * b vs b * a, a - b vs a + - b, x * x vs x ^ 2) then become
+   the same atom for a closing [ring] / [field]; proofs that end this way do not depend on the order in which the
    source writes its operands. *)
+Ltac unify_arg_of f :=
+  match goal with
+  | |- context [f ?a] =>
+      match goal with
+      | |- context [f ?b] =>
+          lazymatch a with
+          | b => fail
+          | _ => progress (replace b with a by ring)
+          end
+      end
+  end.
 Ltac norm_args :=
-  repeat match goal with
-         | |- context [sqrt ?a] => progress (ring_simplify a)
-         | |- context [sin ?a] => progress (ring_simplify a)
-         | |- context [cos ?a] => progress (ring_simplify a)
-         | |- context [atan ?a] => progress (ring_simplify a)
-         | |- context [/ ?a] => progress (ring_simplify a)
-         end.
+  repeat first [ unify_arg_of sqrt | unify_arg_of sin | unify_arg_of cos | unify_arg_of atan | unify_arg_of Rinv ].
 Ltac eq_mod_ring := first [ reflexivity | ring | (unfold Rdiv; norm_args; first [reflexivity | ring]) ].
 
 (* two traces of the same formula: equal by conversion when the source spells the branches alike, and modulo
